@@ -100,7 +100,9 @@ def xorBlock (input : Array UInt8) (keystream : List UInt8) (processed blockSize
   (List.range blockSize).foldl
     (fun out i => out.setIfInBounds (processed + i) (input.getD (processed + i) 0 ^^^ keystream.getD i 0)) output
 
-/-- the `while (processed < input.size())` loop of `ChaCha20::apply` -/
+/-- the `while (processed < input.size())` loop of `ChaCha20::apply`. The counter advance is hand-modelled for
+the shape `chacha20_block(…, counter, …); ++counter;` on the `std::uint32_t` parameter; that the code has this
+shape is the generated obligation `C09.gen_counterAdvance` (`Gen.C09.counterMode = 0`, `counterWidth = 32`). -/
 def applyLoop (key nonce : List UInt8) (input : Array UInt8) (processed : Nat) (counter : UInt32)
     (output : Array UInt8) : Array UInt8 :=
   if processed < input.size then
